@@ -760,10 +760,20 @@ func TestVerifC20(t *testing.T) {
 		}
 		done := make(chan error, 1)
 		go func() { done <- late.issue("late.c20.example") }()
-		<-held
+		// (the rival may never be told "does not exist" — e.g. when what the first process stored is
+		// not an account the CA knows — and then simply finishes: the script must not wait for ever)
+		var errL error
+		lateDone := false
+		select {
+		case <-held:
+		case errL = <-done:
+			lateDone = true
+		}
 		errQ := quick.issue("quick.c20.example")
 		close(release)
-		errL := <-done
+		if !lateDone {
+			errL = <-done
+		}
 		if errQ != nil || errL != nil {
 			o.Mon("C20 issuance-failed-after-dne", map[string]any{"scripted": true, "errors": fmt.Sprint(errQ, errL), "seed": vSeed()})
 		}
